@@ -77,6 +77,20 @@ def run(ctx, res):
             pl.append([f for f in fl if f["text"].strip()])
         cases.append({"name": name, "schemaFiles": base, "opFiles": [{"rel": r, "text": t} for r, t in OPS[name]], "config": CONFIG,
                       "runs": 3 if ctx.quick else 10, "perms": pl, "schemaOutput": "gen/schema.d.ts", "schemaSource": "../gen/schema.js"})
+    # projects WITH diagnostics: the reported diagnostics and their order must not depend on the process either (several faults at one
+    # site, at several sites and in several files; operation faults and schema faults)
+    ops_schema = [{"rel": "schema/s0.graphql", "text": "".join(texts["ops"])}]
+    bad_ops = [("ops/a.graphql", "query A($x: Int) { a(zeta: 1, alpha: 2, mid: 3, beta: 4) @nope1 @nope2 @nope3 b(x: $x, q1: 1, q2: 2, q3: 3) nf1 nf2 nf3 q { a(u1: 1, u2: 2) } }\n"
+                                 "query B { a @dq(s: 1, t1: 1, t2: 2, t3: 3) ...Gone1 ...Gone2 n { ... on U { name(a1: 1, a2: 2, a3: 3) } } }\n"),
+               ("ops/b.graphql", "query C($v1: Nope1, $v2: Nope2, $v3: Nope3) { b(x: $w1, s: $w2, l: $w3) }\nfragment F1 on Nowhere1 { a }\nfragment F2 on Nowhere2 { a }\n"),
+               ("ops/c.graphql", "query D { a(zeta: 1, alpha: 2, mid: 3, beta: 4) }\n")]
+    cases.append({"name": "faulty-ops", "faulty": True, "schemaFiles": ops_schema, "opFiles": [{"rel": r, "text": t} for r, t in bad_ops], "config": CONFIG,
+                  "runs": 4 if ctx.quick else 12, "perms": [], "schemaOutput": "gen/schema.d.ts", "schemaSource": "../gen/schema.js"})
+    bad_schema = ("type Query { a(x: Nope1, y: Nope2, z: Nope3): Gone1 b: Gone2 c: Gone3 @u1 @u2 @u3 }\n"
+                  "type T implements I1 & I2 & I3 { f: Int }\nunion U = M1 | M2 | M3\ninput In { p: Out1 q: Out2 r: Out3 }\n")
+    cases.append({"name": "faulty-schema", "faulty": True, "schemaFiles": [{"rel": "schema/s0.graphql", "text": bad_schema}],
+                  "opFiles": [{"rel": "ops/a.graphql", "text": "query Q { a }\n"}], "config": CONFIG,
+                  "runs": 4 if ctx.quick else 12, "perms": [], "schemaOutput": "gen/schema.d.ts", "schemaSource": "../gen/schema.js"})
     vlib.write_ndjson(ctx.path("cases.ndjson"), cases)
     vlib.run_harness(["determ", vlib.CLI_BIN, ctx.path("cases.ndjson"), ctx.path("events.ndjson"), ctx.path("proj")], timeout=3000)
     events = vlib.read_ndjson(ctx.path("events.ndjson"))
@@ -85,10 +99,14 @@ def run(ctx, res):
     res.traces = o.events
     res.evaluations = o.events
     res.distinct_nontrivial = len({(e["group"], e.get("perm", -1), e.get("run", -1), e["ev"]) for e in events})
-    bad_exit = [e for e in events if e["ev"] == "Run" and e["exit"] != 0]
+    faulty_groups = {i for i, c in enumerate(cases) if c.get("faulty")}
+    if any(e["ev"] == "Run" and e["group"] in faulty_groups and e["exit"] == 0 for e in events):
+        raise vlib.ToolError("a C17 project meant to carry diagnostics was accepted")
+    bad_exit = [e for e in events if e["ev"] == "Run" and e["exit"] != 0 and e["group"] not in faulty_groups]
     if bad_exit:
         raise vlib.ToolError("a C17 project does not generate cleanly: group %s" % bad_exit[0]["group"])
-    res.rule = ("%d catalogue projects (schema + operations incl. several Boolean variables, imports, unions/interfaces): %d fresh CLI "
+    res.rule = ("%d projects (3 catalogue projects: schema + operations incl. several Boolean variables, imports, unions/interfaces; 2 projects "
+                "carrying many diagnostics: several faults per site, per file, in operations and in the schema): %d fresh CLI "
                 "processes each (Rust's per-process hash seeds) + the in-process library route must agree byte for byte (declarations, "
                 "source maps, server schema, stdout); spec->impl: Gen_C17 enumerates every permutation of %d blocks of schema definitions "
                 "x every split over two files (%d arrangements per project%s): verdict and every exported type alias (order-insensitive "
